@@ -238,6 +238,7 @@ def run(chk, facts):
     rule_r27(chk, facts)
     rule_r28(chk, facts)
     rule_r29(chk, facts)
+    rule_r30(chk, facts)
 
 
 def rule_r26(chk, facts, rule='C03-R26'):
@@ -425,4 +426,53 @@ def rule_r29(chk, facts, rule='C03-R29'):
                                '%s[%d] is filled at the index %s inside a loop over a string of unbounded length and the index '
                                'is never compared with the size of the array (path %s): a long enough line writes behind it' % (
                                    tgt, N, show(idx), ' '.join(w[-4:])))
+    return n
+
+
+def rule_r30(chk, facts, rule='C03-R30'):
+    chk.rule(rule, 'alink: the record buffer is read and patched (functions that index the global Buffer with a parameter) '
+             'only at offsets that were compared with the length of the record before; the offset of a relocation comes '
+             'from the file', min_instances=2)
+    P = facts.program('alink')
+    u = facts.unit('alink.c')
+    # functions that form Buffer + parameter
+    acc = {}
+    for f in u.funcs.values():
+        if f.file != 'alink.c' or f.entry is None:
+            continue
+        for b, i, ln, m in f.nodes():
+            if m[0] == 'b' and m[1] == '+' and nocast(m[2])[0] in GLOBKINDS and nocast(m[2])[1] == 'Buffer' and nocast(m[3])[0] == 'p':
+                for k, prm in enumerate(f.params):
+                    if prm['name'] == nocast(m[3])[1]:
+                        acc[f.name] = k
+    if not acc:
+        raise AnalysisBroken('alink.c: accessors of the record buffer not found')
+    n = 0
+    for f in u.funcs.values():
+        if f.file != 'alink.c' or f.entry is None:
+            continue
+        for b, i, ln, c in f.calls(tuple(acc)):
+            k = acc[callee_name(c)]
+            if k >= len(c[2]):
+                continue
+            off = nocast(c[2][k])
+            flds = {m[2] for m in walk(off) if isinstance(m, (list, tuple)) and m and m[0] == 'm'} | \
+                   {tuple(m) for m in walk(off) if isinstance(m, (list, tuple)) and len(m) == 2 and m[0] == 'l'}
+            # locals: follow single definitions
+            for L in [x for x in flds if isinstance(x, tuple)]:
+                for bb, ii, l2, d in f.nodes():
+                    if is_assign(d) and d[1] == '=' and nocast(d[2]) == L:
+                        flds |= {m[2] for m in walk(d[3]) if isinstance(m, (list, tuple)) and m and m[0] == 'm'}
+            if not flds:
+                continue
+            n += 1
+
+            def bounded(l, flds=flds):
+                return edge_has_atom(l, lambda a: a[0] == 'cmp' and a[1] in ('<', '<=') and any(
+                    (isinstance(y, tuple) and y and y[0] == 'm' and y[2] in flds) for y in walk(a[2])))
+            ok, w = f.guarded(b, i, bounded)
+            chk.ob(rule, 'alink.c:%s:%s(%s)' % (f.name, callee_name(c), show(off)[:30]), ok, f.loc(ln),
+                   'offset compared with the record length' if ok else
+                   'the offset %s comes from the relocation entry read from the file and reaches %s() without a comparison '
+                   'with the record length: a relocation outside its record reads and writes arbitrary memory' % (show(off), callee_name(c)))
     return n
